@@ -648,6 +648,39 @@ func (e *Env) call(n *Node, hint *Sym) *Sym {
 		a := e.eval(n.Args[0], nil).term()
 		i := e.eval(n.Args[1], &Sym{L: []*Term{mkRaw("?", arrayIdxSort(a.Sort))}}).term()
 		return &Sym{L: []*Term{mkSelect(a, i)}}
+	case "mapdom", "mapval", "maplen":
+		m := e.eval(n.Args[0], nil)
+		if m.T == nil || kindOf(m.T) != KMap {
+			panic(name + " of non-map")
+		}
+		dom, val, ln := e.x.mapFams(m.T)
+		switch name {
+		case "mapdom":
+			return &Sym{L: []*Term{mkSelect(e.x.hp.heapGet(e.st, dom[0]), m.term())}}
+		case "maplen":
+			return scalar(types.Typ[types.Int], mkSelect(e.x.hp.heapGet(e.st, ln), m.term()))
+		}
+		if len(val) != 1 {
+			panic("mapval of aggregate-valued map")
+		}
+		return &Sym{L: []*Term{mkSelect(e.x.hp.heapGet(e.st, val[0]), m.term())}}
+	case "entry_objects_unchanged":
+		// every object of the argument's struct type that existed at function entry has all its
+		// fields as at entry (a heap frame usable as loop invariant)
+		v := e.eval(n.Args[0], nil)
+		pt, ok := v.T.Underlying().(*types.Pointer)
+		if !ok || e.old == nil || e.x.ctr0 == nil {
+			panic("entry_objects_unchanged needs a pointer-to-struct expression")
+		}
+		var cs []*Term
+		for _, f := range familiesOf(RStruct, pt.Elem()) {
+			cur, old := e.x.hp.heapGet(e.st, f), e.x.hp.heapGet(e.old, f)
+			if cur.S == old.S {
+				continue
+			}
+			cs = append(cs, mkRaw(fmt.Sprintf("(forall ((r!e Int)) (! (=> (<= r!e ctr0) (= (select %s r!e) (select %s r!e))) :pattern ((select %s r!e))))", cur.S, old.S, cur.S), SBool))
+		}
+		return scalar(types.Typ[types.Bool], mkAnd(cs...))
 	case "bigval":
 		x := e.eval(n.Args[0], nil)
 		if x.T != nil && kindOf(x.T) == KBig {
